@@ -100,7 +100,15 @@ def _prune_cache(prefix, keep=14):
 
 
 def build_harness(name="bgh", src="bgh.cpp", flags=None, compiler="g++", defines=()):
-    """Compile a harness against /repo/include (content-hash cached). Returns binary path."""
+    """Compile a harness against /repo/include (content-hash cached). Returns binary path.
+    The protocol harness is first built with the edge-list constructors of the weighted classes
+    (-DBGH_WEIGHTED_CTOR); if /repo's headers do not support them it is built without, and the
+    `ctor … dw|uw` operations then answer bad-op (a C09 / C20 finding, not a build failure)."""
+    if src == "bgh.cpp" and "-DBGH_WEIGHTED_CTOR" not in defines and "-DBGH_NO_WEIGHTED_CTOR" not in defines:
+        try:
+            return build_harness(name, src, flags, compiler, tuple(defines) + ("-DBGH_WEIGHTED_CTOR",))
+        except BuildError:
+            return build_harness(name, src, flags, compiler, tuple(defines) + ("-DBGH_NO_WEIGHTED_CTOR",))
     flags = list(flags if flags is not None else SAN_FLAGS)
     key = tree_hash([repo_include(), HARNESS], " ".join([compiler] + flags + list(defines)))
     os.makedirs(CACHE, exist_ok=True)
